@@ -35,13 +35,26 @@ PB(root, rs, rns, ls, lns) == [k |-> "pb", root |-> root, rs |-> rs, rns |-> rns
 PBDefault(root) == PB(root, On, Off, On, Off)
 Env(name, arg) == [k |-> "env", name |-> name, arg |-> arg]
 
+(* ---- trace flags ------------------------------------------------------------------ *)
+(* W3C trace-context: trace-flags is an 8-bit field; bit 0 (0x01) is `sampled`, bit 1    *)
+(* (0x02, level 2) is `random-trace-id`, the rest is reserved.  The bundled propagator   *)
+(* masks the byte, but span contexts built by other propagators / by hand               *)
+(* (trace.NewSpanContext) carry any byte.  A parent IS SAMPLED iff the low bit is set,   *)
+(* whatever the other bits are.  The statement constrains only the sampled bit of the    *)
+(* started span; its other bits (flx) are open: the model carries the other bits of the  *)
+(* context the span was started under and admits every sub-mask of them (copied, partly  *)
+(* or wholly cleared); it never admits invented bits.                                    *)
+FlagDomain == {0, 1, 2, 3, 128, 129, 255}
+SampledBit(fl) == fl % 2 = 1
+OtherBits(fl) == fl - (fl % 2)
+
 (* ---- parent views --------------------------------------------------------------- *)
 (* What a sampler and the span constructor may look at in the parent context.          *)
 (* ts = the tracestate found in the context; tsAlt = the alternative admissible value   *)
 (* for everything derived from it: an INVALID span context is "no parent" (root), and   *)
 (* the statement is silent on whether a tracestate carried by an invalid context is     *)
 (* "the parent's tracestate" (kept) or belongs to no parent (dropped): both admitted.   *)
-NoParent == [valid |-> FALSE, remote |-> FALSE, sampled |-> FALSE, ts |-> "", tsAlt |-> ""]
+NoParent == [valid |-> FALSE, remote |-> FALSE, sampled |-> FALSE, flx |-> 0, ts |-> "", tsAlt |-> ""]
 
 (* ---- environment-configured sampler (OTel env-var spec) ------------------------------ *)
 (* arg classes: "unset" | "k<i>" (the decimal string of i/8, 0<=i<=8) | "neg" | "gt1" |   *)
@@ -81,16 +94,34 @@ Decide(s, p, hi) ==
     [] s.k = "env" -> Decide(EnvSampler(s.name, s.arg), p, hi)
     [] s.k = "default" -> Decide(DefaultSampler, p, hi)
 
+(* ---- ID generators ------------------------------------------------------------------ *)
+(* A process holds several TracerProviders; each owns an ID generator (its own state).    *)
+(* Abstract generator of provider p: the k-th draw returns the ID <<p, k>>; k = number of  *)
+(* IDs p's generator handed out before (one span ID per started span, one more trace ID   *)
+(* when a fresh trace begins).  "own": what the statement demands -- the streams of       *)
+(* different providers are disjoint, hence every ID is FRESH IN THE PROCESS.  "shared":   *)
+(* every generator replays one stream (<<0, k>>) -- not admitted; only used by the        *)
+(* MC_Providers_shared configuration to show that TLC refutes uniqueness for it.          *)
+GenId(mode, p, k) == IF mode = "own" THEN <<p, k>> ELSE <<0, k>>
+Draws(spans, p) ==
+  Cardinality({i \in DOMAIN spans : spans[i].p = p})
+  + Cardinality({i \in DOMAIN spans : spans[i].p = p /\ spans[i].par.fresh})
+RemoteTid(j) == <<100 + j, 0>>
+RemoteSid(j) == <<100 + j, 1>>
+
 (* ---- spans ------------------------------------------------------------------------ *)
+(* p: the provider whose tracer started the span; tid/sid: abstract IDs;                 *)
 (* tr: trace label (fresh traces 1,2,.. in order of creation; remote trace j = 100+j);  *)
 (* hi: class of the trace ID; tidOK/sidOK: ID valid (and span ID unique in the process); *)
 (* parOK: the span's recorded parent is the context it was started under;              *)
+(* flx: bits other than `sampled` of the context the span was started under (see above); *)
 (* rec: IsRecording now; onStart/onEnd: calls seen by a plain span processor;           *)
 (* expS/expB: times the span reached the exporter of the simple / batch processor.      *)
-MkSpan(s, p, tr, hi, par) ==
+MkSpan(s, p, flx, tr, hi, par, prov, tid, sid, sidFresh) ==
   LET r == Decide(s, p, hi) IN
-  [tr |-> tr, hi |-> hi, tidOK |-> TRUE, sidOK |-> TRUE, parOK |-> TRUE, par |-> par,
-   d |-> r.d, sampled |-> (r.d = RAS), rec |-> (r.d # DROP), ts |-> r.ts, tsAlt |-> r.tsAlt,
+  [p |-> prov, tid |-> tid, sid |-> sid,
+   tr |-> tr, hi |-> hi, tidOK |-> TRUE, sidOK |-> sidFresh, parOK |-> TRUE, par |-> par,
+   d |-> r.d, sampled |-> (r.d = RAS), flx |-> flx, rec |-> (r.d # DROP), ts |-> r.ts, tsAlt |-> r.tsAlt,
    ended |-> FALSE, onStart |-> IF r.d # DROP THEN 1 ELSE 0, onEnd |-> 0, expS |-> 0, expB |-> 0]
 
 EndSpan(sp) ==
@@ -100,19 +131,22 @@ EndSpan(sp) ==
                   !.expS = IF sp.d = RAS THEN 1 ELSE 0,
                   !.expB = IF sp.d = RAS THEN 1 ELSE 0]
 
-ViewOfSpan(sp) == [valid |-> sp.tidOK /\ sp.sidOK, remote |-> FALSE, sampled |-> sp.sampled,
+ViewOfSpan(sp) == [valid |-> sp.tidOK, remote |-> FALSE, sampled |-> sp.sampled, flx |-> sp.flx,
                    ts |-> sp.ts, tsAlt |-> sp.tsAlt]
-(* r: [valid, remote, sampled, ts, hi] -- a span context injected into the context      *)
-(* (remote = extracted by a propagator; not remote = handed over by another local API)  *)
-ViewOfCtx(r) == [valid |-> r.valid, remote |-> r.remote, sampled |-> r.sampled,
+(* r: [valid, remote, fl, ts, hi] -- a span context injected into the context           *)
+(* (remote = extracted by a propagator; not remote = handed over by another local API,  *)
+(* e.g. a wrapper span); fl = its trace-flags byte                                      *)
+ViewOfCtx(r) == [valid |-> r.valid, remote |-> r.remote, sampled |-> SampledBit(r.fl), flx |-> OtherBits(r.fl),
                  ts |-> r.ts, tsAlt |-> IF r.valid THEN r.ts ELSE ""]
 
 (* ---- starting and ending spans in a forest ------------------------------------------- *)
-(* spans: the spans started so far (creation order); remotes: the span contexts that can *)
-(* be put into a context; a = [kind, i, newRoot, hi]: start under no parent | local span *)
-(* i | span context remotes[i]; newRoot = WithNewRoot(); hi = class of the trace ID the  *)
-(* ID generator hands out if (and only if) a fresh trace begins.                         *)
-NextTr(spans) == 1 + Cardinality({i \in DOMAIN spans : spans[i].par.fresh})
+(* spans: the spans started so far IN THE PROCESS (creation order, all providers);       *)
+(* remotes: the span contexts that can be put into a context; a = [kind, i, newRoot, hi, *)
+(* p]: provider p starts a span under no parent | local span i (of any provider) | span  *)
+(* context remotes[i]; newRoot = WithNewRoot(); hi = class of the trace ID the ID        *)
+(* generator hands out if (and only if) a fresh trace begins.                            *)
+FreshTids(spans) == {spans[i].tid : i \in {j \in DOMAIN spans : spans[j].par.fresh}}
+NextTr(spans) == 1 + Cardinality(FreshTids(spans))
 
 RawView(spans, remotes, kind, i) ==
   CASE kind = "none"   -> NoParent
@@ -123,13 +157,22 @@ RawView(spans, remotes, kind, i) ==
 (* generate a new trace ID"; WithNewRoot ignores whatever the context holds.            *)
 Inherits(spans, remotes, kind, i, nr) == ~nr /\ kind # "none" /\ RawView(spans, remotes, kind, i).valid
 
-StartSpan(s, spans, remotes, a) ==
+StartSpanG(mode, s, spans, remotes, a) ==
   LET pv0 == RawView(spans, remotes, a.kind, a.i)
       pv  == IF a.newRoot THEN NoParent ELSE pv0
       inh == Inherits(spans, remotes, a.kind, a.i, a.newRoot)
-      tr  == IF inh THEN (IF a.kind = "local" THEN spans[a.i].tr ELSE 100 + a.i) ELSE NextTr(spans)
+      k   == Draws(spans, a.p)
+      \* a fresh trace draws its trace ID first, then the span ID
+      tid == IF inh THEN (IF a.kind = "local" THEN spans[a.i].tid ELSE RemoteTid(a.i)) ELSE GenId(mode, a.p, k + 1)
+      sid == GenId(mode, a.p, IF inh THEN k + 1 ELSE k + 2)
+      old == {j \in DOMAIN spans : spans[j].par.fresh /\ spans[j].tid = tid}
+      tr  == IF inh THEN (IF a.kind = "local" THEN spans[a.i].tr ELSE 100 + a.i)
+             ELSE IF old # {} THEN spans[CHOOSE j \in old : TRUE].tr ELSE NextTr(spans)
       h   == IF inh THEN (IF a.kind = "local" THEN spans[a.i].hi ELSE remotes[a.i].hi) ELSE a.hi
-  IN Append(spans, MkSpan(s, pv, tr, h, [kind |-> a.kind, i |-> a.i, newRoot |-> a.newRoot, fresh |-> ~inh]))
+      sidFresh == \A j \in DOMAIN spans : spans[j].sid # sid
+  IN Append(spans, MkSpan(s, pv, pv0.flx, tr, h, [kind |-> a.kind, i |-> a.i, newRoot |-> a.newRoot, fresh |-> ~inh],
+                          a.p, tid, sid, sidFresh))
+StartSpan(s, spans, remotes, a) == StartSpanG("own", s, spans, remotes, a)
 
 EndAt(spans, i) == [spans EXCEPT ![i] = EndSpan(@)]
 
@@ -143,4 +186,15 @@ ExportIffSampled(spans) ==
     /\ spans[i].onEnd = (IF spans[i].ended /\ spans[i].d # DROP THEN 1 ELSE 0)
     /\ spans[i].onStart = (IF spans[i].d # DROP THEN 1 ELSE 0)
 IdsOK(spans) == \A i \in DOMAIN spans : spans[i].tidOK /\ spans[i].sidOK /\ spans[i].parOK
+(* "a valid span ID that is unique within the process ... for a root, a fresh valid trace ID": *)
+(* over the abstract IDs of ALL providers' spans and the contexts that came in from outside    *)
+UniqueInProcess(spans, remotes) ==
+  /\ \A i, j \in DOMAIN spans : i # j => spans[i].sid # spans[j].sid
+  /\ \A i \in DOMAIN spans : \A j \in DOMAIN remotes : spans[i].sid # RemoteSid(j)
+  /\ \A i \in DOMAIN spans : spans[i].par.fresh =>
+        /\ \A j \in DOMAIN remotes : spans[i].tid # RemoteTid(j)
+        /\ \A j \in 1..(i - 1) : spans[j].tid # spans[i].tid
+(* the sampled flag is ONE bit: the other bits of a span's flags never exceed those of the     *)
+(* context it was started under (model: equal; the comparison admits every sub-mask)           *)
+SubMask(a, b) == \A k \in 0..7 : ((a \div (2 ^ k)) % 2 = 1) => ((b \div (2 ^ k)) % 2 = 1)
 =============================================================================
